@@ -1,8 +1,11 @@
-(* C11 - pinned statements (ProbOrdMinHash2).  Partial: store-level facts and history freedom;
-   the order-independence characterisation is not yet a theorem (decided by correspondence and
-   the implementation-level permutation search). *)
-From Coq Require Import List ZArith Bool.
-From PMH Require Import Lib.ListArr Model.ProbMinHash Model.OrdMinHash Gen.FlagsOrd Proofs.OrdMinHash.
+(* C11 - pinned statements (ProbOrdMinHash2).
+   The source no longer abandons a pair at its first rejected value (flag from the translator);
+   for that loop: hash_set gives the store in which EVERY point of EVERY pair was offered to its
+   slot; a slot is the first l entries of a sorted arrangement of the points that fall in it; the
+   stored values never depend on the sequence order, and when the values falling in one slot are
+   pairwise distinct neither do the selected (element, occurrence) labels. *)
+From Coq Require Import List ZArith Bool Permutation.
+From PMH Require Import Lib.ListArr Model.ProbMinHash Model.OrdMinHash Gen.FlagsOrd Proofs.OrdMinHash Proofs.OrdTopL.
 Import ListNotations.
 Open Scope Z_scope.
 
@@ -19,6 +22,38 @@ Theorem C11_hash_set_history_free : forall b maxv m l pairs,
   o_hash_set b maxv m l pairs = o_pairs b (o_new maxv m l) 0 pairs.
 Proof. exact ord_hash_set_history_free. Qed.
 
+(* pruning soundness: nothing that could enter a slot is skipped *)
+Theorem C11_hash_set_offers_every_point : forall maxv m l pairs st, (1 <= l)%nat -> pairs_ok m pairs ->
+  o_hash_set ord_break_on_reject maxv m l pairs = Done st ->
+  store_ok st /\ o_slots st = o_naive l (tag_pairs 0 pairs) (o_slots (o_new maxv m l)).
+Proof. exact hash_set_naive. Qed.
+
+Theorem C11_selection_order_independent : forall maxv m l (lp lp' : list lpair) st st',
+  (1 <= l)%nat -> Permutation lp lp' -> pairs_ok m (map snd lp) -> Z.of_nat (length lp) <= 2 ^ 64 - 1 ->
+  (forall k, (k < m)%nat -> vals_distinct (filter (in_slot k) (label_points lp))) ->
+  o_hash_set ord_break_on_reject maxv m l (map snd lp) = Done st ->
+  o_hash_set ord_break_on_reject maxv m l (map snd lp') = Done st' ->
+  forall k, (k < m)%nat ->
+  relabel (map fst lp) (nths (o_slots st) k) = relabel (map fst lp') (nths (o_slots st') k).
+Proof. exact hash_set_order_independent. Qed.
+
+Theorem C11_values_order_independent : forall maxv m l (lp lp' : list lpair) st st',
+  (1 <= l)%nat -> Permutation lp lp' -> pairs_ok m (map snd lp) ->
+  o_hash_set ord_break_on_reject maxv m l (map snd lp) = Done st ->
+  o_hash_set ord_break_on_reject maxv m l (map snd lp') = Done st' ->
+  forall k, (k < m)%nat -> map fst (nths (o_slots st) k) = map fst (nths (o_slots st') k).
+Proof. exact hash_set_values_order_independent. Qed.
+
+(* the monitors evaluated on every correspondence case imply the hypotheses *)
+Theorem C11_monitors_sound : forall m (lp : list lpair),
+  (pairs_okb m (map snd lp) = true -> pairs_ok m (map snd lp)) /\
+  (slots_distinctb m (map snd lp) = true -> forall k, (k < m)%nat -> vals_distinct (filter (in_slot k) (label_points lp))).
+Proof. intros m lp. split; [exact (pairs_okb_ok m (map snd lp))|exact (slots_distinctb_ok m lp)]. Qed.
+
 Print Assumptions C11_source_flag.
 Print Assumptions C11_slot_update.
 Print Assumptions C11_hash_set_history_free.
+Print Assumptions C11_hash_set_offers_every_point.
+Print Assumptions C11_selection_order_independent.
+Print Assumptions C11_values_order_independent.
+Print Assumptions C11_monitors_sound.
